@@ -410,8 +410,7 @@ func (p *Path) forkIndex(idx value, n int, what string) int {
 		return int(i)
 	}
 	w := si.t.sort.w
-	inr := p.ts.BvRel("bvult", si.t, p.ts.BV(uint64(n), w))
-	if !p.decide(inr) {
+	if !p.decide(p.inRange(si, n)) {
 		panic(targetRuntimeError{fmt.Sprintf("index out of range [sym] with length %d", n)})
 	}
 	for i := 0; i < n-1; i++ {
@@ -423,6 +422,21 @@ func (p *Path) forkIndex(idx value, n int, what string) int {
 	return n - 1
 }
 
+// inRange builds 0 <= idx < n for an index of any integer kind.
+func (p *Path) inRange(si symInt, n int) *Term {
+	w := si.t.sort.w
+	if kindSigned(si.k) {
+		if w < 64 && uint64(n) > mask(w-1) {
+			return p.ts.BvRel("bvsge", si.t, p.ts.BV(0, w))
+		}
+		return p.ts.BvRel("bvult", si.t, p.ts.BV(uint64(n), w))
+	}
+	if w < 64 && uint64(n) > mask(w) {
+		return p.ts.Bool(true)
+	}
+	return p.ts.BvRel("bvult", si.t, p.ts.BV(uint64(n), w))
+}
+
 // selectFrom reads elems[idx] for a symbolic in-range idx as an ite chain
 // when all elements are scalars of one kind; otherwise forks.
 func (p *Path) selectFrom(elems []value, idx value, what string) value {
@@ -432,8 +446,7 @@ func (p *Path) selectFrom(elems []value, idx value, what string) value {
 	}
 	n := len(elems)
 	w := si.t.sort.w
-	inr := p.ts.BvRel("bvult", si.t, p.ts.BV(uint64(n), w))
-	if !p.decide(inr) {
+	if !p.decide(p.inRange(si, n)) {
 		panic(targetRuntimeError{fmt.Sprintf("index out of range [sym] with length %d", n)})
 	}
 	// all scalar of the same int kind?
